@@ -315,3 +315,17 @@ def xlsx_foreign(data: bytes, style: str) -> bytes:
                      f'count="{len(shared)}" uniqueCount="{len(shared)}">{"".join(items)}</sst>').encode("utf-8")
             z.writestr(n, b)
     return out.getvalue()
+
+
+def to_dict_blank_cells(sheets, rng, **kw):
+    """The dict a table reader hands over (csv.DictReader and the like): every row carries every header of its sheet, blank cells spelt '' or blanks."""
+    d = to_dict(sheets, **kw)
+    for name, (hdrs, _rows) in sheets.items():
+        key = name.strip().lower()
+        for rd in d.get(key, []) if isinstance(d.get(key), list) else []:
+            if not rd:
+                continue
+            for h in hdrs:
+                if isinstance(h, str) and h not in rd:
+                    rd[h] = rng.choice(["", "", " ", "  "])
+    return d
